@@ -27,7 +27,9 @@ RULE = (
     "(abi, |clobbers|, flags, align, caller, scratch, reads, leaf)."
     " One case in eight goes through PassManager/RewritingContext on"
     " x86-64 ELF (leaf, syscall-only, calling, function-less code, a"
-    " leaf that received a call in an earlier run of the same manager;"
+    " leaf that received a call in an earlier run of the same manager -"
+    " also with a context in between that is given only the other"
+    " functions -, code of no function right behind a function that calls;"
     " patch objects made by subclassing or Patch.from_function with"
     " decorator/explicit constraints): the inserted bytes are executed"
     " with the red zone armed and every register compared."
